@@ -10,6 +10,9 @@ argument is a small tagged list:
   ["date", y, m, d]
   ["dt", y, m, d, H, M, S, tz]            tz: null | ["utc"] | ["zi", key] | ["pytz", key]
                                               | ["du", key] | ["fixed", minutes]
+  ["date", y, m, d, "sub"]  ["dt", ..., tz, "sub"]
+                                          the same value as an instance of a subclass of date / datetime
+                                          (what freezegun, pandas or pendulum hand to the library)
   ["time", H, M, S]
   ["td", days, seconds]
   ["list", [spec, ...]]
@@ -18,6 +21,14 @@ argument is a small tagged list:
   ["v", clsname, spec]                    a raw icalendar value object, e.g. vDatetime(dt)
 """
 from datetime import date, datetime, time, timedelta, timezone
+
+
+class SubDate(date):
+    """A date of a subclass, as other libraries hand them out."""
+
+
+class SubDatetime(datetime):
+    """A datetime of a subclass, as other libraries hand them out."""
 
 
 def tz_of(spec):
@@ -49,9 +60,9 @@ def to_py(spec):
     if kind == "b":
         return spec[1].encode("latin-1")
     if kind == "date":
-        return date(spec[1], spec[2], spec[3])
+        return (SubDate if spec[-1] == "sub" else date)(spec[1], spec[2], spec[3])
     if kind == "dt":
-        naive = datetime(*spec[1:7])
+        naive = (SubDatetime if spec[-1] == "sub" else datetime)(*spec[1:7])
         tzs = spec[7] if len(spec) > 7 else None
         if tzs is None:
             return naive
